@@ -90,6 +90,8 @@ type State struct {
 	inited        map[*ssa.Function]bool
 	pcSeen        map[string]bool
 	speculating   bool
+	trackFootprint bool
+	footprint     map[string]bool
 	faultsOn      bool
 	faultsHit     []string
 	rangeCount    int
